@@ -59,7 +59,13 @@ class SegEval:
             w = seg.derivate(k)(t)
             ders.append([w[0], w[1]])
         same = seg.eval((t,))[0]
-        return {"v": [v[0], v[1]], "ders": ders, "eval_tuple": [same[0], same[1]], "degree": seg.degree, "npts": seg.npts}
+        # again in descending order: the memoised matrices are now warm, also from the higher orders
+        again = []
+        for k in range(d + 1, 0, -1):
+            w = PlanarCurve(ctrl(xs, d)).derivate(k)(t)
+            again.append([w[0], w[1]])
+        again.reverse()
+        return {"v": [v[0], v[1]], "ders": ders, "ders_again": again, "eval_tuple": [same[0], same[1]], "degree": seg.degree, "npts": seg.npts}
 
     def _oracle(self, X, Y, t):
         d = self.d
@@ -74,7 +80,8 @@ class SegEval:
         o = self._oracle(z[: d + 1], z[d + 1 : 2 * d + 2], z[-1])
         obs = [("segment(t) differs from the Bernstein sum", z3.Or([zraw(tr, out["v"][i]) != o["v"][i] for i in range(2)] + [zraw(tr, out["eval_tuple"][i]) != o["v"][i] for i in range(2)]), {})]
         for k in range(1, d + 2):
-            obs.append((f"derivate({k})(t) is not the derivative", z3.Or([zraw(tr, out["ders"][k - 1][i]) != o["ders"][k - 1][i] for i in range(2)]), {"k": k}))
+            obs.append((f"derivate({k})(t) is not the derivative", z3.Or([zraw(tr, out["ders"][k - 1][i]) != o["ders"][k - 1][i] for i in range(2)]
+                                                                     + [zraw(tr, out["ders_again"][k - 1][i]) != o["ders"][k - 1][i] for i in range(2)]), {"k": k}))
         obs.append(("degree/npts wrong", z3.BoolVal(not (out["degree"] == d and out["npts"] == d + 1)), {}))
         return obs
 
@@ -93,7 +100,7 @@ class SegEval:
             return bad, f"degree {d}, ctrl={[str(x) for x in xs[:-1]]}, t={xs[-1]}: library {outcome['v']} vs Bernstein {o['v']}"
         if name.startswith("derivate("):
             k = int(name[len("derivate(") : name.index(")")])
-            bad = [val(a) for a in outcome["ders"][k - 1]] != o["ders"][k - 1]
+            bad = [val(a) for a in outcome["ders"][k - 1]] != o["ders"][k - 1] or [val(a) for a in outcome["ders_again"][k - 1]] != o["ders"][k - 1]
             return bad, f"degree {d}, k={k}, ctrl={[str(x) for x in xs[:-1]]}, t={xs[-1]}: library {outcome['ders'][k-1]} vs exact {o['ders'][k-1]}"
         return not (outcome["degree"] == d and outcome["npts"] == d + 1), "degree/npts"
 
